@@ -493,7 +493,7 @@ class Ledger(Monitor):
             j = self.joins.get((jn, route))
             have = len(set(a[0].task for a in j["arr"])) if j else 0
             need = self._requirement(jn) if jn in self.m.tasks and self.m.tasks[jn].join is not None else None
-            if need is None or have == 0 or (have >= need and j["fired"] == 0) :
+            if need is None or have == 0 or (have >= need and j["fired"] == 0):
                 run.viol("C07", "unreachable_join_error_spurious", "unreachable-join error names %s route %s which has "
                          "%d of %s inbound tasks arrived" % (jn, route, have, need), subject=jn)
 
@@ -776,7 +776,8 @@ class Ledger(Monitor):
     def partial_joins(self):
         out = []
         for (jn, route), j in self.joins.items():
-            if j["fired"] == 0 and j["credits"] == 0 and j["arr"]:
+            cyc = self.m.in_cycle(jn)
+            if j["credits"] == 0 and j["arr"] and (j["fired"] == 0 or cyc):
                 out.append((jn, route))
         return out
 
